@@ -22,7 +22,9 @@ ALSO = {"C14-D": ["C15"], "C07-D": ["C02"], "C01-E": ["C05"], "C07-F": ["C03"], 
         "C01-J": ["C18"], "C03-I": ["C01"], "C04-J": ["C01"], "C05-I": ["C01"], "C05-J": ["C01"], "C06-I": ["C01"], "C08-J": ["C07"],
         "C12-I": ["C15"], "C13-J": ["C12"], "C14-I": ["C05"], "C15-I": ["C14"], "C16-I": ["C19"],
         "C02-K": ["C06"], "C06-K": ["C02"], "C08-L": ["C07"], "C10-K": ["C18"], "C11-L": ["C13"], "C13-K": ["C11"], "C14-L": ["C01"],
-        "C04-M": ["C01"], "C04-N": ["C01"], "C05-M": ["C06"], "C12-M": ["C15"]}
+        "C04-M": ["C01"], "C04-N": ["C01"], "C05-M": ["C06"], "C12-M": ["C15"],
+        "C02-O": ["C06"], "C05-P": ["C03"], "C07-P": ["C08"], "C09-O": ["C10"], "C09-P": ["C10"], "C13-O": ["C12"], "C11-O": ["C13"],
+        "C11-P": ["C09"]}
 
 
 def sh(*cmd: str, timeout: int = 1800) -> subprocess.CompletedProcess:
